@@ -138,3 +138,40 @@ FS_CONFIGS = [
 ]
 FS_DEFS = dict(FS_CONFIGS)
 FS_MULTISTD = ['fs_less_sv4_ntr_std', 'fs_stateful_amcvec_ntr_amc', 'fs_coarse_amcvec_tr_re']
+
+
+# ---------------------------------------------------------------- SmallSet configurations (C++17 and later)
+def smallset_type(e, n, cmp, al, backing):
+    E = ELEM[e]
+    A = _al(al, E)
+    Cm = CMPS[cmp] % E
+    if backing == 'stdset':
+        ST_ = 'std::set<%s,%s,%s >' % (E, Cm, A)
+    elif backing == 'flatvec':
+        ST_ = 'amc::FlatSet<%s,%s,%s,amc::vector<%s,%s > >' % (E, Cm, A, E, A)
+    else:
+        ST_ = 'amc::FlatSet<%s,%s,%s,amc::SmallVector<%s,3,%s > >' % (E, Cm, A, E, A)
+    return 'amc::SmallSet<%s,%d,%s,%s,%s >' % (E, n, Cm, A, ST_)
+
+
+def smallset(e, n, cmp, al, backing, n2, backing2):
+    backing2 = backing  # SmallSet::merge only compiles between sets whose backing sets can merge with each other
+    return {'VF_S': smallset_type(e, n, cmp, al, backing), 'VF_SB': smallset_type(e, n2, SIBLING[cmp], al, backing2)}
+
+
+SS_CONFIGS = [
+    ('ss_1_less_stdset_i32_std', smallset('i32', 1, 'less', 'std', 'stdset', 3, 'flatvec')),
+    ('ss_2_greater_flatvec_i32_amc', smallset('i32', 2, 'greater', 'amc', 'flatvec', 1, 'stdset')),
+    ('ss_3_coarse_flatsv_i32_std', smallset('i32', 3, 'coarse', 'std', 'flatsv', 5, 'stdset')),
+    ('ss_5_stateful_stdset_i32_std', smallset('i32', 5, 'stateful', 'std', 'stdset', 2, 'flatvec')),
+    ('ss_8_less_flatvec_tr_re', smallset('tr', 8, 'less', 're', 'flatvec', 3, 'flatsv')),
+    ('ss_2_stateful_flatvec_ntr_std', smallset('ntr', 2, 'stateful', 'std', 'flatvec', 4, 'stdset')),
+    ('ss_3_less_stdset_ntr_std', smallset('ntr', 3, 'less', 'std', 'stdset', 2, 'flatsv')),
+    ('ss_1_coarse_stdset_tr_std', smallset('tr', 1, 'coarse', 'std', 'stdset', 2, 'stdset')),
+    ('ss_5_greater_flatsv_ntr_amc', smallset('ntr', 5, 'greater', 'amc', 'flatsv', 8, 'flatvec')),
+    ('ss_3_less_stdset_mo_std', smallset('mo', 3, 'less', 'std', 'stdset', 1, 'stdset')),
+    ('ss_2_less_flatvec_mo_amc', smallset('mo', 2, 'less', 'amc', 'flatvec', 3, 'flatvec')),
+    ('ss_4_transparent_stdset_i32_std', smallset('i32', 4, 'transparent', 'std', 'stdset', 2, 'flatvec')),
+    ('ss_3_less_flatvec_tr_realamc', smallset('tr', 3, 'less', 'realamc', 'flatvec', 2, 'stdset')),
+]
+SS_DEFS = dict(SS_CONFIGS)
